@@ -1,11 +1,18 @@
 import DdoModel.Proofs.CacheClosedSolver
-/-! C09 — the caching solver with **arbitrary pops** (`KStepAny`: a custom `SubProblemRanking`): what survives without the
-best-first hypothesis.  Everything but optimality: from a state satisfying `KInvAny`, whatever node is popped, the turn does
-not panic (both compilations end normally, every cache access is in range), the sequential state makes a `Step` of
-`Props/C01t.lean` (termination), the `open_by_layer` bookkeeping stays exact, and the incumbent is `isize::MIN` or the value
-of the stored solution, a genuinely feasible complete path — hence `≤` the optimum (`kturn_any`).
+/-! C09 — the caching solver with **arbitrary pops** (`KStepAny`: a custom `SubProblemRanking`), **the elementary part**: what
+can be said without the coverage invariant `CInvC` and without any contract on the thresholds.  From a state satisfying
+`KInvAny`, whatever node is popped, the turn does not panic (both compilations end normally, every cache access is in range),
+the sequential state makes a `Step` of `Props/C01t.lean` (termination), the `open_by_layer` bookkeeping stays exact, and the
+incumbent is `isize::MIN` or the value of the stored solution, a genuinely feasible complete path — hence `≤` the optimum
+(`kturn_any`).
 
-`KInvAny` is `KInvSt` with the coverage part (`CInvC`: coverage + `CacheOk`) replaced by soundness of the incumbent. -/
+`KInvAny` is `KInvSt` with the coverage part (`CInvC`: coverage + `CacheOk`) replaced by soundness of the incumbent.
+
+History: this file was written when `enqueue_cutset(ub)` still capped the cut-set nodes by the bound of the processed node;
+then `KInvSt` was only preserved by best-first pops and `KInvAny` was *all* that survived an arbitrary pop order (optimality
+did not: `Ddo.C09.anyOrderOpt_false`, finding D14).  Since the repair (no cap) the full invariant `KInvSt` is preserved for
+every pop order too (`kturn_inv` of `Proofs/CacheClosedSolver.lean` has no hypothesis on the order), so `kturn_any` is
+subsumed by it through `KInvSt.toAny`; it is kept as the argument that does not go through the thresholds. -/
 set_option linter.unusedSectionVars false
 set_option linter.unusedVariables false
 namespace Ddo.C09
@@ -25,7 +32,7 @@ structure KInvAny (sv : SolverCfg S) (H : Nat → S → EInt) (s : KSt S) : Prop
   clen : s.cache.layers.length = sv.P.nbVars + 1
   lay : LInv sv s.st
 
-/-- the best-first invariant implies the order-free one -/
+/-- the full invariant implies the elementary one -/
 theorem KInvSt.toAny {sv : SolverCfg S} {H : Nat → S → EInt} {B : Int} {s : KSt S} (h : KInvSt sv H B s) :
     KInvAny sv H s :=
   ⟨h.nodes, h.lbLo, h.solLb, h.noAbort, fun opt hopt => ⟨(h.feas opt hopt).lbOk, (h.feas opt hopt).solOk⟩, h.infeas, h.clen,
@@ -217,7 +224,31 @@ theorem kturn_any {sv : SolverCfg S} {H : Nat → S → EInt} {B0 B : Int} (hwf 
   · rw [hst]
     exact C01t.Step.pop s.st N rest fa me r x hpop hprog
 
+/-! ## along the runs -/
+
+theorem kstepAny_invAny {sv : SolverCfg S} {H : Nat → S → EInt} {B0 B : Int} (hwf : WellFormed sv H B0 B) {s t : KSt S}
+    (h : KStepAny sv s t) (hI : KInvAny sv H s) : KInvAny sv H t ∧ C01t.Step sv.P.nbVars sv.dedup s.st t.st := by
+  cases h with
+  | pop N rest hpop hturn =>
+    obtain ⟨t', ht', hT, hS⟩ := kturn_any hwf s N rest hpop hI
+    rw [hturn] at ht'
+    cases ht'
+    exact ⟨hT, hS⟩
+
+theorem krunAny_invAny {sv : SolverCfg S} {H : Nat → S → EInt} {B0 B : Int} (hwf : WellFormed sv H B0 B) {s t : KSt S}
+    (h : KRunAny sv s t) (hI : KInvAny sv H s) : KInvAny sv H t := by
+  induction h with
+  | refl => exact hI
+  | tail _ hstep ih => exact (kstepAny_invAny hwf hstep ih).1
+
+theorem kstepAny_terminatesAny {sv : SolverCfg S} {H : Nat → S → EInt} {B0 B : Int} (hwf : WellFormed sv H B0 B) :
+    WellFounded (fun t s : KSt S => KInvAny sv H s ∧ KStepAny sv s t) :=
+  Subrelation.wf (r := InvImage (fun t s : SeqSt S => C01t.Step sv.P.nbVars sv.dedup s t) KSt.st)
+    (fun {_ _} h => (kstepAny_invAny hwf h.2 h.1).2) (InvImage.wf _ (C01t.seq_terminates sv.P.nbVars sv.dedup))
+
 end Ddo.C09
 
 #print axioms Ddo.C09.kprocess_any
 #print axioms Ddo.C09.kturn_any
+#print axioms Ddo.C09.krunAny_invAny
+#print axioms Ddo.C09.kstepAny_terminatesAny
